@@ -279,6 +279,47 @@ fn coq_spec_cases(expected: &[Vec<Val>], obs: &Obs, rng: &mut Rng, out: &mut Cas
 /// (some row with >= 2 values) and has a value-less row.
 pub fn f82_column(rows: &[Vec<Val>]) -> bool { rows.iter().any(|r| r.len() >= 2) && rows.iter().any(|r| r.is_empty()) }
 
+/// Parameters shared by the inputs of one merge for NEAR-MISS vocabularies of a Str / Bytes column: every input gets
+/// the same number of terms, the same smallest and largest term, the same length / common-prefix profile (so the
+/// serialized dictionaries have the same size), but its own middle terms.
+#[derive(Clone, Debug)]
+pub struct NearMiss { pub family: u64, pub middle: usize, pub suffix: String }
+
+pub fn gen_near_miss(rng: &mut Rng) -> NearMiss {
+    let suffix = match rng.below(4) { 0 => String::new(), 1 => "x".to_string(), 2 => "-level".to_string(), _ => "é".to_string() };
+    NearMiss { family: rng.below(3), middle: rng.range(1, 5) as usize, suffix }
+}
+
+/// the vocabulary of one input (sorted, distinct)
+pub fn near_miss_vocab(rng: &mut Rng, nm: &NearMiss, bytes: bool) -> Vec<Vec<u8>> {
+    // the middle terms differ in ONE character drawn from a sorted alphabet strictly between the two shared extremes
+    let alphabet: Vec<u8> = (b'b'..=b'y').collect();
+    let mut chosen: Vec<u8> = vec![];
+    while chosen.len() < nm.middle { let c = *rng.pick(&alphabet); if !chosen.contains(&c) { chosen.push(c); } }
+    chosen.sort();
+    let mk = |c: u8| -> Vec<u8> {
+        let mut t: Vec<u8> = match nm.family { 0 => vec![], 1 => b"common/".to_vec(), _ => b"k".to_vec() };
+        t.push(c);
+        t.extend_from_slice(nm.suffix.as_bytes());
+        if bytes && nm.family == 2 { t.push(0xFF); }
+        t
+    };
+    let mut v = vec![mk(b'a')];
+    v.extend(chosen.into_iter().map(mk));
+    v.push(mk(b'z'));
+    v
+}
+
+/// rows over a vocabulary; every term of the vocabulary occurs when there is room for it
+pub fn rows_from_vocab(rng: &mut Rng, vocab: &[Vec<u8>], num_docs: usize, shape: u64, bytes: bool) -> Vec<Vec<Val>> {
+    let counts: Vec<usize> = (0..num_docs).map(|_| match shape { 0 => 1, 1 => rng.chance(4, 5) as usize, _ => *rng.pick(&[0usize, 1, 1, 2, 3]) }).collect();
+    let total: usize = counts.iter().sum();
+    let mut picks: Vec<usize> = (0..total).map(|i| if i < vocab.len() { i } else { rng.below(vocab.len() as u64) as usize }).collect();
+    rng.shuffle(&mut picks);
+    let mut it = picks.into_iter();
+    counts.iter().map(|&c| (0..c).map(|_| { let t = vocab[it.next().unwrap()].clone(); if bytes { Val::Y(t) } else { Val::S(t) } }).collect()).collect()
+}
+
 /// Coq cases for the multivalued columns of a small LEGACY (v1) file: Column::get_docids_for_value_range vs the
 /// model of the v1 index (docid_range_to_rowids, row scan, select_batch_in_place) and vs the list specification.
 /// Works in the mapped space of whatever numeric type the column has.
@@ -424,9 +465,12 @@ pub fn section_columnar(rng: &mut Rng, out: &mut CaseOut, thorough: bool) {
         let pool: Vec<(String, Kind, u64)> = (0..rng.range(1, 5)).map(|c| { let kind = KINDS[rng.below(KINDS.len() as u64) as usize]; (format!("m{}_{:?}", c, kind).to_lowercase(), kind, rng.below(4)) }).collect();
         // every fourth merge (a stacked one, small inputs): a multivalued numeric column is always present ...
         let pool: Vec<(String, Kind, u64)> = if mi % 4 == 0 { vec![("mlegacy_u64".to_string(), Kind::U64, 2)] } else { pool };
+        // merges 2, 3 (mod 4) -- one stacked, one shuffled: near-miss dictionaries, at least two inputs
+        let near_miss: Option<NearMiss> = if mi % 4 >= 2 { Some(gen_near_miss(rng)) } else { None };
+        let k = if near_miss.is_some() { k.max(2) } else { k };
         let mut tables = vec![];
         for _ in 0..k {
-            let nd = if big { rng.range(30000, 70000) as usize } else if rng.chance(1, 8) { 0 } else if mi % 4 == 0 || mi % 6 == 3 { rng.range(1, 15) as usize } else { rng.range(1, 700) as usize };
+            let nd = if big { rng.range(30000, 70000) as usize } else if rng.chance(1, 8) { 0 } else if mi % 4 == 0 || mi % 6 == 3 || mi % 8 == 2 { rng.range(1, 15) as usize } else { rng.range(1, 700) as usize };
             let mut cols = vec![];
             if mi % 4 == 0 {
                 // directed: few documents, a numeric column with 0 / 1 / several values per document
@@ -441,6 +485,14 @@ pub fn section_columnar(rng: &mut Rng, out: &mut CaseOut, thorough: bool) {
                 let shape = if rng.chance(1, 3) { rng.below(4) } else { *shape };
                 let density = *rng.pick(&[65536u64, 60000, 30000, 5120, 600]);
                 cols.push(ColSpec { name: name.clone(), kind: *kind, rows: gen_rows(rng, *kind, nd, shape, density) });
+            }
+            if let Some(nm) = &near_miss {
+                // Str and Bytes columns whose per-input dictionaries are near-misses of each other
+                for (name, bytes) in [("mnear_str", false), ("mnear_bytes", true)] {
+                    let vocab = near_miss_vocab(rng, nm, bytes);
+                    let shape = rng.below(3);
+                    cols.push(ColSpec { name: name.to_string(), kind: if bytes { Kind::Bytes } else { Kind::Str }, rows: rows_from_vocab(rng, &vocab, nd, shape, bytes) });
+                }
             }
             tables.push(Table { num_docs: nd, cols });
         }
@@ -466,10 +518,26 @@ pub fn section_columnar(rng: &mut Rng, out: &mut CaseOut, thorough: bool) {
         if mi % 4 == 0 { let j = rng.below(k as u64) as usize; legacy_input[j] = true; }     // ... and some input is a legacy file
         if legacy_input.iter().skip(1).any(|&l| l) { out.count("merges_with_legacy_input_not_first", 1); }
         let ctx = json!({"what": "merge_columnar", "order": if stacked { "stack" } else { "shuffled" }, "inputs": tables.iter().map(|t| t.num_docs).collect::<Vec<_>>(), "legacy_v1_input": legacy_input, "merge": mi, "rows_out": mapping.len()});
+        let near_hits = std::cell::Cell::new(0u64);
         let r = guarded(|| -> Result<Vec<u8>, String> {
             let files: Vec<Vec<u8>> = tables.iter().zip(&legacy_input).map(|(t, &leg)| { let b = write_table(t); if leg { super::c08_legacy::to_legacy_v1(&b).expect("legacy conversion").0 } else { b } }).collect();
             let readers: Vec<ColumnarReader> = files.into_iter().map(|b| ColumnarReader::open(b).map_err(|e| e.to_string())).collect::<Result<_, _>>()?;
             let refs: Vec<&ColumnarReader> = readers.iter().collect();
+            // measured for the evidence: inputs whose dictionaries differ but share (number of terms, size, first, last)
+            for name in ["mnear_str", "mnear_bytes"] {
+                let mut prints: Vec<(usize, usize, Vec<u8>, Vec<u8>, Vec<Vec<u8>>)> = vec![];
+                for r in &readers {
+                    for h in r.read_columns(name).map_err(|e| e.to_string())? {
+                        let bc: tantivy_columnar::BytesColumn = match h.open().map_err(|e| e.to_string())? { DynamicColumn::Str(s) => s.into(), DynamicColumn::Bytes(b) => b, _ => continue };
+                        let n = bc.num_terms();
+                        let mut terms = vec![]; for o in 0..n as u64 { let mut t = vec![]; bc.ord_to_bytes(o, &mut t).map_err(|e| e.to_string())?; terms.push(t); }
+                        if n >= 3 { prints.push((n, bc.dictionary().num_bytes().get_bytes() as usize, terms[0].clone(), terms[n - 1].clone(), terms)); }
+                    }
+                }
+                if prints.len() >= 2 && prints.iter().all(|p| (p.0, p.1, &p.2, &p.3) == (prints[0].0, prints[0].1, &prints[0].2, &prints[0].3)) && prints.iter().any(|p| p.4 != prints[0].4) {
+                    near_hits.set(near_hits.get() + 1);
+                }
+            }
             let order: MergeRowOrder = if stacked { StackMergeOrder::stack(&refs).into() } else {
                 let nums: Vec<u32> = tables.iter().map(|t| t.num_docs as u32).collect();
                 ShuffleMergeOrder::for_test(&nums, mapping.iter().map(|&(s, r)| RowAddr { segment_ord: s as u32, row_id: r as u32 }).collect()).into()
@@ -507,6 +575,26 @@ pub fn section_columnar(rng: &mut Rng, out: &mut CaseOut, thorough: bool) {
                         }
                     }
                 }
+                // tie: the model of the dictionary merge (k-way merge of the sorted term lists + ordinal remapping) vs the
+                // merged dictionary and the merged ordinals of the implementation, for small stacked merges of Str / Bytes columns
+                if stacked && mapping.len() <= 60 {
+                    if let Ok(Ok(reader)) = guarded(|| ColumnarReader::open(bytes_copy.clone())) {
+                        for (name, kind) in &names {
+                            if !is_str_kind(*kind) { continue; }
+                            let Ok(Ok(obs)) = guarded(|| -> Result<Obs, String> { let hs = reader.read_columns(name).map_err(|e| e.to_string())?; if hs.len() != 1 { return Err("handles".into()); } observe(hs[0].open().map_err(|e| e.to_string())?) }) else { continue; };
+                            let Some(impl_terms) = &obs.terms else { continue; };
+                            let term = |b: &Vec<u8>| cf::bytes(b);
+                            let inputs_term = cf::list(&tables, |t| {
+                                let rows: Vec<Vec<Val>> = t.cols.iter().find(|c| &c.name == name).map(|c| c.rows.clone()).unwrap_or_else(|| vec![vec![]; t.num_docs]);
+                                let dict: Vec<Vec<u8>> = rows.iter().flatten().filter_map(|v| val_bytes(v).map(|b| b.to_vec())).collect::<BTreeSet<_>>().into_iter().collect();
+                                let ords = cf::list(&rows, |r| cf::list(r, |v| cf::nat(dict.binary_search(&val_bytes(v).unwrap().to_vec()).unwrap())));
+                                format!("({}, {})", cf::list(&dict, term), ords) });
+                            out.coq_case("tie", format!("dict_stack_tie {} {} {}", inputs_term, cf::list(impl_terms, term), cf::list(&obs.rows, |r| cf::list(r, |v| v.to_string()))),
+                                         json!({"what": "stack merge of Str / Bytes columns: merged dictionary and remapped ordinals vs model", "merge": mi, "column": name, "inputs": tables.iter().map(|t| t.num_docs).collect::<Vec<_>>(), "near_miss": near_miss.is_some()}), mapping.len() >= 2);
+                            out.count("dict_merge_tie_cases", 1);
+                        }
+                    }
+                }
                 // spec of the merge itself, in Coq, for small u64 inputs
                 if mapping.len() <= 30 && tables.iter().all(|t| t.num_docs <= 30) {
                     for (name, kind) in &names {
@@ -522,5 +610,6 @@ pub fn section_columnar(rng: &mut Rng, out: &mut CaseOut, thorough: bool) {
             }
         }
         out.count(if stacked { "merges_stacked" } else { "merges_shuffled" }, 1);
+        if near_hits.get() > 0 { out.count(if stacked { "merges_stacked_near_miss_dictionaries_same_fingerprint" } else { "merges_shuffled_near_miss_dictionaries_same_fingerprint" }, near_hits.get()); }
     }
 }
